@@ -117,6 +117,17 @@ def judge(ctx, w, lock, cache, want, sig, detail, now):
     if want is not None and v is not want:
         ctx.violation({**sig, 'oracle': 'contract model', 'kind': 'accepts' if v is True else 'rejects'},
                       f'{detail}: run_auth_scripts {v!r}, model {want}')
+    if len(cache) > 1:
+        # the cache is a mapping: the same entries inserted by the embedder in the opposite order give the same verdict
+        try:
+            v2 = F.run_auth_scripts([w, lock], dict(reversed(list(cache.items()))))
+        except BaseException as e:
+            v2 = e
+        ctx.ran()
+        ctx.trans(2)
+        if (v2 if type(v2) is bool else type(v2)) != (v if type(v) is bool else type(v)):
+            ctx.violation({**sig, 'oracle': 'cache entry order', 'kind': 'accepts' if v2 is True else 'rejects'},
+                          f'{detail}: run_auth_scripts {v!r}, with the cache entries inserted in reverse order {v2!r}')
     rv, _ = ref_auth([w, lock], ro=cache, now=now)
     ctx.ran()
     if type(rv) is bool and rv is not v:
